@@ -81,6 +81,9 @@ FIXED = [
     ("scripted", [o("resolve", r=1, tag=1), o("resolve", r=2, tag=1), o("settle"), o("ts_lookup", r=1), o("advance", ms=61000),
                   o("settle"), o("resolve", r=1, tag=0), o("ts_send"), o("settle"), o("resolve", r=2, tag=0), o("cleanup"),
                   o("lookup_item", r=1), o("settle"), o("advance", ms=61000), o("settle"), o("cleanup"), o("settle")]),
+    # endpoint shutdown with messages queued: the cancelled actor's leftover is handled by its successor
+    ("scripted", [o("resolve", r=1, tag=0), o("settle"), o("resolve", r=1, tag=1), o("resolve", r=2, tag=1), o("netchange"),
+                  o("cancel"), o("settle"), o("cleanup"), o("settle"), o("resolve", r=1, tag=1), o("settle"), o("cleanup"), o("settle")]),
     # leftover picked up by cleanup() (not by a SendError)
     ("none", [o("resolve", r=2, tag=1), o("settle"), o("arm"), o("advance", ms=70000), o("settle"), o("ts_lookup", r=2),
               o("ts_send"), o("release"), o("settle"), o("cleanup"), o("settle"), o("advance", ms=61000), o("settle"), o("cleanup")]),
@@ -92,7 +95,10 @@ def random_script(rng):
     ops, nreq, n, holding = [], 0, rng.randint(10, 28), False
     while len(ops) < n and nreq < 34:
         x = rng.random()
-        if x < 0.30:
+        if x < 0.04:
+            ops.append(o("netchange"))
+            nreq += 2
+        elif x < 0.30:
             ops.append(o("resolve", r=rng.randint(1, 2), tag=rng.randint(0, 1)))
             nreq += 1
         elif x < 0.48:
@@ -135,6 +141,18 @@ def random_script(rng):
                 else:
                     ops.append(o("settle"))
             ops += [o("release"), o("settle")]
+    if rng.random() < 0.15:
+        # endpoint shutdown in the middle of things (growth beyond C21: accepted messages are still handled)
+        ops.append(o("cancel"))
+        for _ in range(rng.randint(0, 5)):
+            k = rng.random()
+            if k < 0.35 and nreq < 38:
+                ops.append(o("resolve", r=rng.randint(1, 2), tag=rng.randint(0, 1)))
+                nreq += 1
+            elif k < 0.6:
+                ops.append(o("settle"))
+            else:
+                ops.append(o("cleanup"))
     return services, ops
 
 
@@ -144,7 +162,7 @@ def to_trace(ev):
     if e in ("restart", "cl_poll"):
         return None
     if e == "handle":
-        kind = {"resolve": "resolve", "remote_info": "info"}.get(ev["kind"], ev["kind"])
+        kind = {"resolve": "resolve", "remote_info": "info", "network_change": "netchange"}.get(ev["kind"], ev["kind"])
         m = re.search(r":(\d+)\)", ev.get("detail", "") or "")
         return {"ev": "handle", "inst": ev["inst"], "kind": kind, "tag": int(m.group(1)) if m else 0}
     if e == "start":
@@ -210,6 +228,8 @@ def run(ctx):
     ctx.cov["restarts_observed"] = sum(1 for _, recs, _ in traces for r in recs if r["ev"] == "start" and r["n"] > 0)
     ctx.cov["closes_with_leftover_observed"] = sum(1 for _, recs, _ in traces for r in recs if r["ev"] == "closed" and r["n"] > 0)
     validate(ctx, traces)
+    if not ctx.violations and not ctx.replay:
+        selftest(ctx, traces)
     ctx.cov["rule"] = ("model: all reachable states for the constants (exhaustive); implementation: fixed scripts + seeded random "
                        "scripts, each event log validated by TLC; non-trivial = the log contains an actor restart")
     ctx.cov["exhaustive"] = False
@@ -254,6 +274,43 @@ def validate(ctx, traces, rounds=6):
             drift.append("script %d event %d %s" % (sc["case"], at - starts[idx], json.dumps(ev)))
         traces = traces[idx + 1:]
     return finish(drift)
+
+
+def selftest(ctx, traces):
+    """Binding self-test: corrupted copies of an accepted event log must be rejected by the trace spec."""
+    base = next((tr for sc, tr, rep in traces if sc.get("origin") == "fixed" and any(r["ev"] == "closed" and r["n"] > 0 for r in tr)),
+                None)
+    if base is None:
+        raise ToolError("no accepted fixed trace with a leftover close to corrupt")
+    def find(ev, pred=lambda r: True):
+        return [i for i, r in enumerate(base) if r["ev"] == ev and pred(r)][0]
+
+    def drop(i):
+        return base[:i] + base[i + 1:]
+
+    def change(i, field, f):
+        t = [dict(r) for r in base]
+        t[i][field] = f(t[i][field])
+        return t
+
+    variants = [("handle event removed", drop(find("handle"))),
+                ("reply turned into a dropped reply channel", change(find("reply"), "res", lambda v: "dropped"))]
+    if not ctx.quick:
+        variants += [("leftover count of a close changed", change(find("closed", lambda r: r["n"] > 0), "n", lambda v: v + 1)),
+                     ("restart loses one initial message", change(find("start", lambda r: r["n"] > 0), "n", lambda v: v - 1)),
+                     ("idle_break event removed", drop(find("idle_break"))),
+                     ("handled request's tag changed", change(find("handle"), "tag", lambda v: v + 1)),
+                     ("sa_end event removed", drop(find("sa_end"))),
+                     ("a reply removed (request never answered)", drop(find("reply")))]
+    rejected = 0
+    for name, tr in variants:
+        tf = ctx.write_ndjson("c21-selftest.trace", [{"ev": "reset"}] + tr)
+        res = ctx.tlc_trace("socket", "Trace_RemoteMap", tf, cfg="Trace_RemoteMap.cfg", timeout=1200)
+        if res.ok:
+            ctx.cov["traces_validated_against_impl"] -= 1
+            raise ToolError("binding self-test: corrupted trace (%s) was accepted by Trace_RemoteMap" % name)
+        rejected += 1
+    ctx.cov["binding_selftests"] = {"variants": len(variants), "rejected": rejected}
 
 
 def finish(drift):
